@@ -88,6 +88,13 @@ func c08Cases(tier string, seed int64) []core.Case {
 		mp := mp
 		if mp == 0 {
 			cases = append(cases, c08FsrvCases()...)
+			// a connection closes while the implementation is slow in the callbacks of its close processing (a
+			// FidDestroy that waits for the operation still using the fid, a slow ConnClosed): requests of the other
+			// connections are answered meanwhile
+			for _, where := range []string{"fiddestroy", "connclosed"} {
+				where := where
+				cases = append(cases, core.Case{ID: "slow-teardown-of-another-connection/" + where, Run: func(ctx *core.Ctx) core.Result { return slowTeardown(ctx, "C08", where) }})
+			}
 		}
 		cases = append(cases, core.Case{ID: fmt.Sprintf("event-loop-answers/maxpend=%d", mp), Run: func(ctx *core.Ctx) core.Result { return c08EventLoop(ctx, mp) }})
 		cases = append(cases, core.Case{ID: fmt.Sprintf("tflush-as-group-member/maxpend=%d", mp), Run: func(ctx *core.Ctx) core.Result { return c08FlushAsMember(ctx, mp) }})
